@@ -17,6 +17,7 @@ import Driver.Util
   nam class <name=mod,..|-> <cur> <m.i=0|1,..> <name> ; nam module <m,..> <m> ;
   nam member <n=pub,..|-> <n=pub,..|-> <name>                            -> 1 | 0
   kind callee <ty> | kind object <bounded generics> <ty> | kind fieldtargs <n|-> | kind super <m.i=0|1,..> <m.i=0,..> | kind imember <isClass> <m|f…>  -> 1 | 0
+  supm …  same, memoised variant (repair of C05-F6)
   sup <m.i/tp,tp/ty|ty ...>* ? <ty>   transitive super types -> c=<cyclic> x=<fuel exhausted> <ty>|<ty>…
 Type syntax (prefix, no blanks): a0 a1 | u b i | g<n>; | n<s>,<m>,<id>(<ty>*) | f(<ty>*)<ty> -/
 namespace Driver.C06
@@ -247,6 +248,18 @@ def step (_ : Unit) (line : String) : Unit × String :=
       let conv := fun (l : List (Nat × Nat)) => l.map fun p => (p.1, p.2 == 1)
       ((), bit (Gates.memberAccessResolved ⟨1, 1⟩ ⟨1, 2, false⟩ (conv (parsePairs ms)) (conv (parsePairs fs)) name))
     | none => ((), "bad-op")
+  | "supm" :: rest =>
+    let decls := (rest.takeWhile (· != "?")).map parseDecl
+    match (rest.dropWhile (· != "?")).drop 1 with
+    | [q] =>
+      match parseTyS q with
+      | some t =>
+        if decls.all Option.isSome then
+          let r := Gates.resolveSupersM (decls.filterMap id) t
+          ((), s!"c={bit r.2.1} x={bit r.2.2} {if r.1.isEmpty then "-" else "|".intercalate (r.1.map showTy)}")
+        else ((), "bad-decl")
+      | none => ((), "bad-type")
+    | _ => ((), "bad-op")
   | "sup" :: rest =>
     let decls := (rest.takeWhile (· != "?")).map parseDecl
     match (rest.dropWhile (· != "?")).drop 1 with
